@@ -28,9 +28,14 @@ RULE = ("exhaustive: every sequence of length <= 5 (quick) / 6 (thorough) over 3
         "the copying family with every compiling (source, destination) iterator flavour incl. output-iterator proxy and "
         "back_insert_iterator; the overloads without comparator (comparator id 3); sorts / reverse on reverse_iterator; "
         "reverse_iterator operators and advance/next/prev/distance for every category, position and distance on a length-6 range; "
+        "every predicate- / comparator-taking algorithm also with predicates returning int (truthy 2, -1, 4096) or a class type "
+        "contextually convertible to bool (suffix _t1.._t4) on every sequence of length <= 4; every algorithm that moves elements "
+        "inside its range also on a move-tracking element type (suffix _mv / _mv_full: a move marks its source, no self test) - "
+        "sequences of length <= 4 x predicate / comparator ids, every (first,middle,last) / (first,last,dest) / n on lengths <= 6; "
         "plus seeded random longer sequences; non-trivial = distinct case line with a non-empty range")
 TRUSTED_BASE = ["reference leg: libstdc++ 12 <algorithm> on a copy of the same input"]
-ASSUMPTIONS = ["element type int (moves are copies); predicates/comparators from the shared id family (coq/C06a/Instances.v)"]
+ASSUMPTIONS = ["element type int (moves are copies) or the move-tracking type Mv of the harness (ops _mv); predicates/comparators from the "
+               "shared id family (coq/C06a/Instances.v), result type bool / int / class (ops _t<k>)"]
 
 
 def L(xs):
@@ -283,27 +288,31 @@ def gen(tier, rng):
             out.append(f"unique_mv_full {eid} {ls}")
         for cid in range(0, 3):
             for s in SORTS:
-                out.append(f"{s}_t{tcyc(s)} {cid} {ls}")
+                if cid == 0 or s == "stable_sort":
+                    out.append(f"{s}_t{tcyc(s)} {cid} {ls}")
                 out.append(f"{s}_full_t{tcyc(s + 'f')} {cid} {ls}")
-            for k in range(0, len(l) + 1):
-                out.append(f"partial_sort_t{tcyc('ps')} {cid} {k} {ls}")
-                if k < len(l) or len(l) == 0:
-                    out.append(f"nth_element_t{tcyc('ne')} {cid} {k} {ls}")
-            for mid in range(0, len(l) + 1):
-                a = sorted(l[:mid], key=cmpkey(cid))
-                b = sorted(l[mid:], key=cmpkey(cid))
-                out.append(f"inplace_merge_t{tcyc('im')} {cid} {mid} {L(a + b)}")
+            k = len(l) // 2
+            out.append(f"partial_sort_t{tcyc('ps')} {cid} {k} {ls}")
+            if l:
+                out.append(f"nth_element_t{tcyc('ne')} {cid} {k} {ls}")
+            if cid != 1:
+                for mid in range(0, len(l) + 1):
+                    a = sorted(l[:mid], key=cmpkey(cid))
+                    b = sorted(l[mid:], key=cmpkey(cid))
+                    out.append(f"inplace_merge_t{tcyc('im')} {cid} {mid} {L(a + b)}")
         for cid in (0, 2, 3):
             for s in SORTS:
-                out.append(f"{s}_mv {cid} {ls}")
+                if cid == 0 or s == "stable_sort":
+                    out.append(f"{s}_mv {cid} {ls}")
                 out.append(f"{s}_mv_full {cid} {ls}")
             out.append(f"partial_sort_mv {cid} {len(l) // 2} {ls}")
             if l:
                 out.append(f"nth_element_mv {cid} {len(l) // 2} {ls}")
-            for mid in range(0, len(l) + 1):
-                a = sorted(l[:mid], key=cmpkey(cid))
-                b = sorted(l[mid:], key=cmpkey(cid))
-                out.append(f"inplace_merge_mv {cid} {mid} {L(a + b)}")
+            if cid != 2:
+                for mid in range(0, len(l) + 1):
+                    a = sorted(l[:mid], key=cmpkey(cid))
+                    b = sorted(l[mid:], key=cmpkey(cid))
+                    out.append(f"inplace_merge_mv {cid} {mid} {L(a + b)}")
     for n in range(0, 6 + 1):
         l = list(range(10, 10 + n))
         for f in range(0, n + 1):
